@@ -1927,7 +1927,12 @@ returnVal.option() ?: return null
             }
             Type::Struct(ref strct) => {
                 let op_id = strct.id();
-                self.formatter.fmt_type_name(op_id)
+                let type_name = self.formatter.fmt_type_name(op_id);
+                if self.tcx.resolve_type(op_id).attrs().disable {
+                    self.errors
+                        .push_error(format!("Found usage of disabled type {type_name}"))
+                }
+                type_name
             }
             Type::ImplTrait(ref trt) => {
                 let op_id = trt.id();
@@ -1937,7 +1942,15 @@ returnVal.option() ?: return null
                 )
                 .into()
             }
-            Type::Enum(ref enum_def) => self.formatter.fmt_type_name(enum_def.tcx_id.into()),
+            Type::Enum(ref enum_def) => {
+                let op_id = enum_def.tcx_id.into();
+                let type_name = self.formatter.fmt_type_name(op_id);
+                if self.tcx.resolve_type(op_id).attrs().disable {
+                    self.errors
+                        .push_error(format!("Found usage of disabled type {type_name}"))
+                }
+                type_name
+            }
             Type::Slice(hir::Slice::Str(_, _)) => self.formatter.fmt_string().into(),
             Type::Slice(hir::Slice::Primitive(_, ty)) => {
                 self.formatter.fmt_primitive_slice(ty).into()
